@@ -39,6 +39,12 @@ def gen(rng, tier):
     fixed = [("tok 32 0 P225c7564383030;R;P225c753030343122;P20;N;P225c753030343122;P20", "fixed-reset-surrogate"),
              ("tok 32 0 Z5b31202f2a", "fixed-comment-nul"), ("tok 2 0 P5b5b5b;R;P5b315d;P20;N;P5b315d;P20", "fixed"),
              ("tok 32 1 P7b2261223a;R;P31;P20;N;P31;P20", "fixed")]
+    # a pending high surrogate (a call that stopped after \\uD8xx, inside the following escape, or with an error there),
+    # then reset, then a document whose FIRST escape is in a member name / a string value / a nested name
+    for first in (b'"\\ud800', b'"\\ud83d\\', b'"\\ud83d\\u', b'"\\ud83d\\ude', b'{"\\udbff', b'["\\ud800x', b'"\\ud800\\n'):
+        for second in (b'{"\\uDD1E":1}', b'{"\\u0041":"\\udc00"}', b'"\\udc00"', b'[{"k":{"\\ude00":[]}}]', b'{"a":1,"\\udd1e":2}'):
+            sec = ["P" + hx(second), "P" + hx(b" ")]
+            fixed.append((line(32, 0, ["P" + hx(first), "R"] + sec + ["N"] + sec), "fixed-reset-surrogate-key"))
     for l, k in fixed:
         out.append((l, {"kind": k, "reuse": l.count(";N;") > 0}))
     for i in range(n):
